@@ -2,6 +2,7 @@
 import numpy as np
 from hypothesis import strategies as st
 
+from .. import gens
 from ..harness import Sub, Violation, import_repo
 from ..refs import prox_ref
 
@@ -32,7 +33,12 @@ def partition(draw, d):
     groups = {}
     for i, l in enumerate(labels):
         groups.setdefault(l, []).append(i)
-    gl = [list(draw(st.permutations(g))) for g in groups.values()]  # indices inside a group come in any order
+    if d >= 2 and draw(st.integers(0, 4)) == 0:
+        # interleaved columns (what strided ranges describe): group j = j, j+k, j+2k, ...
+        k = draw(st.integers(2, min(3, d)))
+        gl = [list(range(j, d, k))[::draw(st.sampled_from([1, 1, -1]))] for j in range(k)]
+    else:
+        gl = [list(draw(st.permutations(g))) for g in groups.values()]  # indices inside a group come in any order
     perm = draw(st.permutations(range(len(gl))))
     return [gl[i] for i in perm]
 
@@ -56,6 +62,7 @@ def lin_case(draw, grouped):
             "alpha_row": draw(st.integers(0, 5)), "comp_seed": draw(st.integers(0, 2 ** 31 - 1))}
     if grouped:
         case["groups"] = draw(partition(d))
+        case["gcont"] = draw(st.one_of(st.none(), gens.seeds))
     return case
 
 
@@ -79,7 +86,8 @@ def oracle_linear(case):
     alpha = _alpha_for(case, W, groups)
     Wc = W.copy()
     with np.errstate(all="ignore"):
-        out = P.linear_prox_grad(Wc, alpha) if groups is None else P.group_linear_prox_grad(groups, Wc, alpha)
+        out = P.linear_prox_grad(Wc, alpha) if groups is None else \
+            P.group_linear_prox_grad(gens.group_containers(groups, case.get("gcont")), Wc, alpha)
     if not np.array_equal(Wc, W):
         raise Violation("the proximal operator modified its input")
     if out.shape != W.shape:
@@ -130,6 +138,7 @@ def mlp_case(draw, grouped):
             "comp_seed": draw(st.integers(0, 2 ** 31 - 1))}
     if grouped:
         case["groups"] = draw(partition(d))
+        case["gcont"] = draw(st.one_of(st.none(), gens.seeds))
     return case
 
 
@@ -152,7 +161,7 @@ def oracle_mlp(case):
             if groups is None:
                 B, T = P.mlp_prox_grad(Vc, Uc, alpha, M)
             else:
-                B, T = P.group_mlp_prox_grad(groups, Vc, Uc, alpha, M)
+                B, T = P.group_mlp_prox_grad(gens.group_containers(groups, case.get("gcont")), Vc, Uc, alpha, M)
         except (IndexError, ValueError, FloatingPointError) as e:
             raise Violation(f"hierarchical prox raised {type(e).__name__}: {e}")
     if not (np.array_equal(Vc, V) and np.array_equal(Uc, U)):
